@@ -7,7 +7,7 @@ MANIFEST.json.
 
 PROPS = {}
 NOT_APPLICABLE = {}
-HOOK_COMMITS = []
+HOOK_COMMITS = ["c94b8c9"]
 
 
 def prop(pid, **kw):
